@@ -540,7 +540,8 @@ Section Editor.
     edo _ <- changes_end;
     if r then refresh_line else eret tt.
 
-  Definition layout_w (s : str) : nat := layout_width U s.
+  (* Unit = u16, saturating (repair of F20) *)
+  Definition layout_w (s : str) : nat := Nat.min (layout_width U s) (N.to_nat 65535%N).
 
   Definition edit_move_line_up (n : nat) : E bool :=
     edo s <- eget;
@@ -727,8 +728,8 @@ Section Editor.
         match m with
         | MForwardChar 0 =>
           let k := match li with Some t' => blen t' | None => 0 end in
-          if Nat.ltb (N.to_nat 65535%N) k then epanic     (* RepeatCount::try_from(..).unwrap() *)
-          else eret (CReplace (MForwardChar k) li)
+          (* RepeatCount::try_from(..).unwrap_or(RepeatCount::MAX) (repair of F19) *)
+          eret (CReplace (MForwardChar (Nat.min k (N.to_nat 65535%N))) li)
         | _ => eret (CReplace (mvt_redo m new) li)
         end
       | Some _ => eret (CReplace (mvt_redo m new) t)
